@@ -10,6 +10,22 @@ default segment, uniformity guard, non-negativity, GUI clip of `nperseg`; area =
 stationary multi-tone signals (measurements with stated tolerances). The same clauses after every step of operation
 histories on long-lived objects (requests interleaved with updates of the series' data, modify, copies): the spectrum is
 that of the data the series holds at the time of the request.
+
+Input classes generated on purpose (audit after three rounds of seeded changes):
+* spelling: x as list / tuple / integer array / int32 / strided and reversed views / read-only array, dt as python int, numpy
+  scalars, 0-d array; arguments positional / by keyword / omitted / welch's defaults written out; nperseg as numpy integer;
+  normalize as int / numpy bool; series names and container keys that differ (and contain `%`, `{}`, brackets, a path);
+* boundaries: empty / 1 / 2 samples, default segment for n = 1..8, nperseg = n, n +- 1, noverlap = nperseg - 1, signals in other
+  units (x 2^+-200, 2^-60), time axis in other units (x 2^+-30, 60, 0.001), single deviating time steps (a dropped sample,
+  +-0.4 % / +-0.6 % pairs), options that are given but do nothing, windows ending exactly on samples;
+* processing options of TimeSeries.psd (twin, resample, filterargs, taperfrac, window_len; `tsopt`) and the GUI path with time
+  window / filter arguments on containers of several series (`guiopt`): compared with the definition applied to the series
+  `get()` returns for the spelled-out options (a reference that does not run through psd / calculate_psd), and tied to the Lean
+  model by running `psdTs` on the processed arrays;
+* entry points: TimeSeries.plot_psd and TsDB.plot_psd (the curves drawn, Agg backend);
+* histories: the time axis rewritten in place, the GUI path with filters on long-lived objects (against the spelled-out chain,
+  not only against a new object), `signal.psd` called repeatedly on ONE array object the caller changes between the calls;
+* an exception while the clauses are evaluated is a failing clause (`safe_evaluate`).
 """
 import math
 import random
@@ -28,10 +44,18 @@ RULE = ("short: seeded signals of 1..256 samples (gaussian, tones, ramps, consta
         "shifted, replaced by another signal, single samples; modify(twin / resample); copy(), copy.copy, re-construction from "
         "the object's arrays and switching between the objects; read-only calls), short (16..200 samples) and long stationary "
         "(1024..4096, area and peak after every update); "
-        "non-trivial = non-constant signal averaged over >= 2 segments, or a history with >= 2 requests and a data update; "
+        "spelling of every request drawn from: container / number type of x, t, dt, nperseg, normalize; positional / keyword / omitted / "
+        "explicit-default arguments; names and keys; amplitudes x 2^+-200, time units x 2^+-30; tsopt: 24..1024 samples x 1-3 of "
+        "{twin (whole / on samples / inside), resample (incl. the series' own step), filterargs (lp hp bp bs), taperfrac (0, .1, .25, .5, 1), "
+        "window_len (1, 3, 5)} x nperseg (default = quarter of the processed series) / noverlap / nfft x normalize x repeated request; "
+        "guiopt: containers of 1-3 series (own length, step, jitter; one object under two keys) x twin x fargs x nperseg (1..100000, n, n+-1) "
+        "x repeated call; plot: TimeSeries.plot_psd / TsDB.plot_psd (names, options); sighist: 3-11 steps on one ndarray (psd with its own "
+        "dt / segment settings; in-place scale, shift, replace, single sample); guard: single deviating steps; "
+        "non-trivial = non-constant signal averaged over >= 2 segments, or a history with >= 2 requests and a data update, or a processed / container case; "
         "distinct by the full case")
 
 DTS = [0.01, 0.1, 0.25, 0.5, 1.0, 2.0, 3.7]
+AMPS = [-2.5, 0.3, 7.0, -2.5, 0.3, 7.0, 2.0 ** 200, 2.0 ** -200, -2.0 ** -60]      # other units of the same signal
 GUARD_MSG = "varies with more than 1%"
 
 
@@ -47,9 +71,15 @@ def materialise(sig):
         return sig.get("t0", 0.0) + sig["dt"] * np.arange(x.size), x
     n, dt = sig["n"], sig["dt"]
     jit = sig.get("jitter")
-    if jit and jit["amp"] > 0 and n > 1:
-        r = random.Random(jit["seed"])
-        steps = np.array([dt * (1.0 + jit["amp"] * r.uniform(-1, 1)) for _ in range(n - 1)])
+    outl = sig.get("outliers") if n > 1 else None
+    if (jit and jit["amp"] > 0 and n > 1) or outl:
+        if jit and jit["amp"] > 0:
+            r = random.Random(jit["seed"])
+            steps = np.array([dt * (1.0 + jit["amp"] * r.uniform(-1, 1)) for _ in range(n - 1)])
+        else:
+            steps = np.full(n - 1, float(dt))
+        for i, fac in outl or []:                      # single deviating steps (a dropped sample, a late sample)
+            steps[i % (n - 1)] *= fac
         t = sig.get("t0", 0.0) + np.concatenate([[0.0], np.cumsum(steps)])
     else:
         t = sig.get("t0", 0.0) + dt * np.arange(n)
@@ -64,6 +94,8 @@ def materialise(sig):
     for i, v in sig.get("spikes", []):
         if i < n:
             x[i] += v
+    if "gain" in sig:                                  # the same signal in another unit (exact for powers of two)
+        x = x * sig["gain"]
     return t, x
 
 
@@ -112,28 +144,140 @@ def ref_ts(t, x, nperseg, noverlap, nfft, normalize):
 # ----------------------------------------------------------------------------------------------------------
 # implementation calls
 # ----------------------------------------------------------------------------------------------------------
+def _integral(a):
+    a = np.asarray(a, dtype=float)
+    return bool(a.size == 0 or (np.all(np.isfinite(a)) and np.all(a == np.round(a)) and float(np.max(np.abs(a))) < 2.0 ** 31))
+
+
+def spell_array(a, kind):
+    """the same numbers in another container / number type (class: spelling of the same thing)"""
+    a = np.asarray(a, dtype=float)
+    if kind == "list":
+        return [float(v) for v in a]
+    if kind == "tuple":
+        return tuple(float(v) for v in a)
+    if kind == "int":                                   # integer ndarray when the values are integers
+        return a.astype(np.int64) if _integral(a) else a
+    if kind == "int32":
+        return a.astype(np.int32) if _integral(a) else a
+    if kind == "intlist":
+        return [int(v) for v in a] if _integral(a) else [float(v) for v in a]
+    if kind == "view":                                  # strided view into a larger buffer
+        buf = np.full(2 * a.size + 1, 1e30)
+        v = buf[1::2]
+        v[:] = a
+        return v
+    if kind == "rev":                                   # negative stride
+        return a[::-1].copy()[::-1]
+    if kind == "readonly":
+        b = a.copy()
+        b.flags.writeable = False
+        return b
+    return a.copy()
+
+
+def spell_scalar(v, kind):
+    if kind == "np.float64":
+        return np.float64(v)
+    if kind == "int" and float(v) == int(v):
+        return int(v)
+    if kind == "np.int64" and float(v) == int(v):
+        return np.int64(int(v))
+    if kind == "0d":
+        return np.array(float(v))
+    return v
+
+
+def spell_n(v, kind):
+    return np.int64(v) if (kind == "np.int64" and v is not None) else v
+
+
+EXPLICIT_DEFAULTS = dict(window="hann", detrend="constant", scaling="density", return_onesided=True, axis=-1, average="mean")
+
+
 def call(case, t=None, x=None, dt_factor=1.0):
-    """run the implementation; ("ok", f, p) or ("err", kind)"""
+    """run the implementation; ("ok", f, p) or ("err", kind). `case["spell"]` selects container / number types of the
+    arrays and scalars and the way the arguments are passed (defaults: float ndarrays, keywords)."""
     from qats import TimeSeries
     from qats.signal import psd
     from qats.app.funcs import calculate_psd
     if t is None:
         t, x = materialise(case["sig"])
     api = case["api"]
-    kw = {k: case[k] for k in ("nperseg", "noverlap", "nfft") if case.get(k, "absent") != "absent"}
+    sp = case.get("spell") or {}
+    kw = {k: spell_n(case[k], sp.get("n")) for k in ("nperseg", "noverlap", "nfft") if case.get(k, "absent") != "absent"}
+    style = sp.get("args", "kw")
     try:
         if api == "signal":
-            f, p = psd(x, case["sig"]["dt"] * dt_factor, **kw)
-        elif api == "ts":
-            f, p = TimeSeries("a", t, x).psd(normalize=case.get("normalize", False), **kw)
+            xs = spell_array(x, sp.get("x", "ndarray"))
+            dts = spell_scalar(case["sig"]["dt"] * dt_factor, sp.get("dt"))
+            if style == "omit":
+                kw = {k: v for k, v in kw.items() if v is not None}
+            elif style == "explicit":
+                kw = dict(EXPLICIT_DEFAULTS, **kw)
+            for _ in range(2 if sp.get("repeat") else 1):       # the second call on the same array object counts
+                if style == "dtkw":
+                    f, p = psd(xs, dt=dts, **kw)
+                elif style == "allkw":
+                    f, p = psd(x=xs, dt=dts, **kw)
+                else:
+                    f, p = psd(xs, dts, **kw)
         else:
-            ts = TimeSeries("a", t, x)
-            f, p = calculate_psd({"a": ts}, case.get("twin"), None, case["nperseg"], case.get("normalize", False))["a"]
+            ts = TimeSeries(sp.get("name", "a"), spell_array(t, sp.get("t", "ndarray")), spell_array(x, sp.get("x", "ndarray")))
+            norm = case.get("normalize", False)
+            norm = {"int": int(bool(norm)), "np.bool": np.bool_(norm)}.get(sp.get("norm"), norm)
+            if api == "ts":
+                if style == "pos":
+                    f, p = ts.psd(kw.get("nperseg"), kw.get("noverlap"), "constant", kw.get("nfft"), norm)
+                elif style == "omit":
+                    kw = {k: v for k, v in kw.items() if v is not None}
+                    f, p = ts.psd(**kw) if not norm else ts.psd(normalize=norm, **kw)
+                elif style == "explicit":
+                    f, p = ts.psd(detrend="constant", normalize=norm, twin=None, resample=None, filterargs=None, taperfrac=None, **kw)
+                else:
+                    f, p = ts.psd(normalize=norm, **kw)
+            else:
+                key = sp.get("key", "a")
+                tw = case.get("twin")
+                tw = (tw if sp.get("twin") == "list" else tuple(tw)) if tw else None
+                nps = spell_n(case["nperseg"], sp.get("n"))
+                if style == "kwcall":
+                    out = calculate_psd(container={key: ts}, twin=tw, fargs=None, nperseg=nps, normalize=norm)
+                else:
+                    out = calculate_psd({key: ts}, tw, None, nps, norm)
+                if list(out.keys()) != [key]:
+                    return ("err", "keys:" + repr(list(out.keys())))
+                f, p = out[key]
         return ("ok", np.asarray(f, dtype=float), np.asarray(p, dtype=float))
     except ValueError as e:
         return ("err", "guard" if GUARD_MSG in str(e) else "value")
     except Exception as e:  # noqa
         return ("err", "exc:" + type(e).__name__)
+
+
+def pick_spell(rng, api, plain=0.45):
+    """how the same request is spelled (None: float ndarrays and keyword arguments as before)"""
+    if rng.random() < plain:
+        return None
+    sp = {}
+    if api == "signal":
+        sp["x"] = rng.choice(["ndarray", "list", "tuple", "int", "int32", "intlist", "view", "rev", "readonly"])
+        sp["dt"] = rng.choice(["float", "np.float64", "int", "np.int64", "0d"])
+        sp["args"] = rng.choice(["kw", "dtkw", "allkw", "explicit", "omit"])
+        sp["repeat"] = rng.random() < 0.4
+    else:
+        sp["x"] = rng.choice(["ndarray", "int", "int32", "view", "rev", "readonly"])
+        sp["t"] = rng.choice(["ndarray", "int", "view", "readonly"])
+        sp["name"] = rng.choice(["a", "Tension [kN]", "100%s {x} %d", "psd"])
+        sp["norm"] = rng.choice(["bool", "int", "np.bool"])
+        if api == "ts":
+            sp["args"] = rng.choice(["kw", "pos", "omit", "explicit"])
+        else:
+            sp["args"] = rng.choice(["pos", "kwcall"])
+            sp["key"] = rng.choice(["a", "a", "dir/file.ts\\Tension [kN]", "other-than-name"])
+            sp["twin"] = rng.choice(["tuple", "list"])
+    sp["n"] = rng.choice(["int", "np.int64"])
+    return sp
 
 
 def scale_of(p, x, dt):
@@ -171,8 +315,8 @@ def brief(a, k=6):
 # ----------------------------------------------------------------------------------------------------------
 def evaluate(case):
     """list of (clause, expected, observed) that fail for this case"""
-    if case.get("api") == "history":
-        return evaluate_history(case)
+    if case.get("api") in DISPATCH:
+        return DISPATCH[case["api"]](case)
     bad = []
     t, x = materialise(case["sig"])
     api = case["api"]
@@ -250,10 +394,21 @@ def evaluate(case):
     if "timeunit" in checks and api == "signal":
         k = case.get("k", 60.0)
         r2 = call(case, t, x, dt_factor=k)
-        if r2[0] != "ok" or not same(r2[1] * k, f, 1e-12 * float(np.max(np.abs(f))) + 1e-300) or not same(r2[2] / k, p, 1e-12 * sc):
+        if r2[0] != "ok" or not same(r2[1] * k, f, 1e-12 * (float(np.max(np.abs(f))) if f.size else 0.0) + 1e-300) or not same(r2[2] / k, p, 1e-12 * sc):
             bad.append(("changing the time unit (dt -> %r dt) divides the frequencies and multiplies the densities by %r "
                         "(a density per Hz: the area does not depend on the unit)" % (k, k), brief(p * k),
                         brief(r2[2]) if r2[0] == "ok" else list(r2)))
+
+    if "timeunit" in checks and api in ("ts", "gui") and n > 1 and not case.get("twin"):
+        # the same record with its time axis in another unit (uniformly sampled series only: the guard's absolute
+        # tolerance and the GUI's interpolation are not unit-free for a varying step)
+        k = case.get("k", 60.0)
+        r2 = call(case, k * t, x)
+        if r2[0] != "ok" or not same(r2[1] * k, f, 1e-9 * float(np.max(np.abs(f))) + 1e-300) or \
+                not same(r2[2] if norm else r2[2] / k, p, 1e-9 * sc):
+            bad.append(("expressing the time axis in another unit (t -> %r t) divides the frequencies by %r and multiplies the "
+                        "densities by it (normalised: unchanged): a density per Hz of the series' own time step" % (k, k),
+                        brief(p if norm else p * k), brief(r2[2]) if r2[0] == "ok" else list(r2)))
 
     # -- normalisation, defaults, clip ----------------------------------------------------------------------------------
     if "normalised" in checks and api != "signal":
@@ -318,8 +473,9 @@ def call_obj(ts, st):
             f, p = ts.psd(nperseg=st.get("nperseg"), noverlap=st.get("noverlap"), nfft=st.get("nfft"),
                           normalize=bool(st.get("normalize", False)), **_opts(st))
         else:
-            tw = st.get("twin")
-            f, p = calculate_psd({"a": ts}, tuple(tw) if tw else None, None, st["nperseg"], bool(st.get("normalize", False)))["a"]
+            tw, fa = st.get("twin"), st.get("fargs")
+            f, p = calculate_psd({"a": ts}, tuple(tw) if tw else None, tuple(fa) if fa else None, st["nperseg"],
+                                 bool(st.get("normalize", False)))["a"]
         return ("ok", np.array(f, dtype=float), np.array(p, dtype=float))
     except Exception as e:  # noqa
         return _errkind(e)
@@ -327,7 +483,7 @@ def call_obj(ts, st):
 
 def _argkey(st):
     return repr((st["op"], st.get("nperseg"), st.get("noverlap"), st.get("nfft"), bool(st.get("normalize", False)),
-                 sorted((st.get("options") or {}).items()), st.get("twin")))
+                 sorted((st.get("options") or {}).items()), st.get("twin"), st.get("fargs")))
 
 
 def _show(r):
@@ -383,6 +539,8 @@ def evaluate_history(case):
                 o["ts"].x[:] = xn
             else:
                 o["ts"].x = np.array(xn)
+            if sig2.get("tones") and o.get("kcum", 1.0) != 1.0:    # frequencies in the unit the time axis has now
+                sig2 = dict(sig2, tones=[[a_, f_ / o["kcum"], ph_] for a_, f_, ph_ in sig2["tones"]])
             o["x"], o["sig"], o["prev"] = np.array(xn), sig2, {}
         elif op == "poke":
             j = st["i"] % o["x"].size
@@ -391,11 +549,24 @@ def evaluate_history(case):
             o["prev"] = {}
         elif op == "modify":
             try:
-                o["t"], o["x"] = [np.array(v, dtype=float) for v in TimeSeries("s", o["t"].copy(), o["x"].copy()).get(**_opts(st))]
+                tn, xn = [np.array(v, dtype=float) for v in TimeSeries("s", o["t"].copy(), o["x"].copy()).get(**_opts(st))]
+                if tn.size < 2:
+                    return bad                          # the window leaves nothing of this series: the history ends here
+                o["t"], o["x"] = tn, xn
                 o["ts"].modify(**_opts(st))
             except Exception:  # noqa  (a window / step this series does not support: not this property's subject)
                 return bad
             o["prev"] = {}
+        elif op == "retime":
+            # the time axis rewritten in place through the public attribute (another unit / stretched record)
+            k = st["k"]
+            tt = o["ts"].t
+            tt[:] = tt[0] + k * (tt - tt[0])
+            o["t"] = o["t"][0] + k * (o["t"] - o["t"][0])
+            o["prev"] = {}
+            o["kcum"] = o.get("kcum", 1.0) * k
+            if o["sig"].get("tones"):                    # the sinusoids' frequencies in the new unit
+                o["sig"] = dict(o["sig"], tones=[[a_, f_ / k, ph_] for a_, f_, ph_ in o["sig"]["tones"]])
         elif op == "fork":
             if st.get("how") == "ctor":
                 new = TimeSeries("b", o["ts"].t, o["ts"].x)
@@ -403,7 +574,7 @@ def evaluate_history(case):
                 new = _copy.copy(o["ts"])
             else:
                 new = o["ts"].copy()
-            objs.append(dict(ts=new, t=o["t"].copy(), x=o["x"].copy(), sig=o["sig"], prev={}))
+            objs.append(dict(ts=new, t=o["t"].copy(), x=o["x"].copy(), sig=o["sig"], prev={}, kcum=o.get("kcum", 1.0)))
             cur = len(objs) - 1
         elif op == "switch":
             cur = st["to"] % len(objs)
@@ -449,8 +620,22 @@ def evaluate_history(case):
                     report("the spectrum depends only on the series' current data and the arguments: a long-lived object and a new "
                            "TimeSeries of the same (t, x) give the same spectrum", i, _show(fresh), _show(r))
                     failed = True
+            # -- GUI path against the spelled-out chain (window, resampling, filter, taper, clip) + the definition ---------------------
+            if op == "gui" and not failed:
+                tw, fa = st.get("twin"), st.get("fargs")
+                rg = ref_gui(tc, xc, tuple(tw) if tw else None, tuple(fa) if fa else None, st["nperseg"], norm)
+                if rg is not None:
+                    tmp = []
+                    _cmp_spectrum(tmp, "GUI path after updates of the series' data", r, rg[0], rg[1], rg[2], rg[3], None, None, norm)
+                    for c_, e_, o_ in tmp:
+                        report(c_, i, e_, o_)
+                        failed = True
             # -- amplitude^2 / constant offset relative to the previous identical request ------------------------------------------
-            if not failed and pv is not None and r[0] == "ok" and pv["r"][0] == "ok" and not skipval and np.isfinite(pv["ratio"]):
+            # (not through a frequency filter: the numerical response of the Butterworth filter to a constant level, and its
+            #  round-off when the cut-off lies far below the resolution, are property C12's subject, not the estimator's; those
+            #  requests are compared with the spelled-out chain and with a new object above)
+            if not failed and pv is not None and r[0] == "ok" and pv["r"][0] == "ok" and not skipval and np.isfinite(pv["ratio"]) \
+                    and not st.get("fargs"):
                 a = pv["a"]
                 exp = pv["r"][2] if norm else a * a * pv["r"][2]
                 sc = 1.0 if norm else a * a * pv["sc"]
@@ -465,7 +650,7 @@ def evaluate_history(case):
             else:
                 o["prev"].pop(key, None)
             # -- measurements on stationary signals --------------------------------------------------------------------------------------
-            if not failed and r[0] == "ok" and not st.get("options") and not st.get("twin"):
+            if not failed and r[0] == "ok" and not st.get("options") and not st.get("twin") and not st.get("fargs"):
                 f, p = r[1], r[2]
                 if "area" in checks and not norm:
                     var, area = float(np.var(xc)), float(np.trapezoid(p, f))
@@ -486,6 +671,349 @@ def _ratio(x):
     m = float(np.max(np.abs(x))) if len(x) else 0.0
     return m / s if s > 1e-13 * max(m, 1e-300) else float("inf")
 
+
+
+# ----------------------------------------------------------------------------------------------------------
+# processing options, GUI containers, plotting wrappers, histories on the caller's array
+# ----------------------------------------------------------------------------------------------------------
+def _get_opts(options):
+    """keyword arguments of TimeSeries.get as the caller writes them (window / filter as tuple, or as list when `as_list`)"""
+    o = dict(options or {})
+    as_list = o.pop("as_list", False)
+    for k in ("twin", "filterargs"):
+        if isinstance(o.get(k), list) and not as_list:
+            o[k] = tuple(o[k])
+    return o
+
+
+def _processed(t, x, opts):
+    """(t', x') of the processed series, by a separate object; None if the options cannot be applied to this series"""
+    from qats import TimeSeries
+    try:
+        tp, xp = TimeSeries("r", np.array(t, dtype=float), np.array(x, dtype=float)).get(**opts)
+        tp, xp = np.asarray(tp, dtype=float), np.asarray(xp, dtype=float)
+    except Exception:  # noqa
+        return None
+    if tp.size < 2 or tp.size != xp.size or not np.all(np.isfinite(xp)) or not np.all(np.isfinite(tp)):
+        return None
+    return tp, xp
+
+
+def _ref_outcome(tp, xp, nperseg, noverlap, nfft, norm):
+    try:
+        return ("ok",) + ref_ts(tp, xp, nperseg, noverlap, nfft, norm)
+    except ValueError as e:
+        return _errkind(e)
+
+
+def _cmp_spectrum(bad, what, r, ref, tp, xp, nperseg, noverlap, nfft, norm, wrap=lambda v: v):
+    """outcome, frequencies and densities of `r` against the definition applied to the processed series (tp, xp)"""
+    if ref[0] != r[0] or (ref[0] == "err" and ref[1] != r[1]):
+        bad.append((what + ": the outcome (spectrum / ValueError of the argument checks / time-step error) is the one the "
+                    "definition prescribes for the processed series", wrap(ref[:2] if ref[0] == "err" else "spectrum"),
+                    wrap(r[:2] if r[0] == "err" else "spectrum")))
+        return False
+    if r[0] != "ok":
+        return True
+    dtp = float(np.mean(np.diff(tp)))
+    if not same(r[1], ref[1], 1e-12 * (float(np.max(np.abs(ref[1]))) if ref[1].size else 0.0) + 1e-300):
+        bad.append((what + ": frequencies run from 0 to 1/(2 dt') in steps of 1/(nfft dt'), dt' = time step of the processed "
+                    "series; default segment = a quarter of the processed series", wrap(dict(n=int(ref[1].size), f=brief(ref[1], 3), last=float(ref[1][-1]) if ref[1].size else None)),
+                    wrap(dict(n=int(r[1].size), f=brief(r[1], 3), last=float(r[1][-1]) if r[1].size else None))))
+        return False
+    if norm:
+        plain = _ref_outcome(tp, xp, nperseg, noverlap, nfft, False)
+        if is_noise(plain, xp, dtp) or _ratio(xp) == float("inf"):
+            return True                                   # noise / noise
+    sc = 1.0 if norm else scale_of(ref[2], xp, dtp)
+    rt = _ratio(xp)
+    if not np.isfinite(rt):
+        return True
+    if not same(r[2], ref[2], (1e-9 + 4e-15 * rt) * sc):
+        bad.append((what + ": densities equal the independent implementation of Welch's Hann-windowed, mean-removed, one-sided "
+                    "density of the processed series (1e-9 of the peak)", wrap(brief(ref[2])), wrap(brief(r[2]))))
+        return False
+    return True
+
+
+def _tsopt_call(ts, kw, norm, opts, style):
+    try:
+        if style == "pos":
+            f, p = ts.psd(kw["nperseg"], kw["noverlap"], "constant", kw["nfft"], norm, **opts)
+        elif style == "omit":
+            f, p = ts.psd(**{k: v for k, v in kw.items() if v is not None}, **({"normalize": True} if norm else {}), **opts)
+        else:
+            f, p = ts.psd(normalize=norm, **kw, **opts)
+        return ("ok", np.asarray(f, dtype=float), np.asarray(p, dtype=float))
+    except Exception as e:  # noqa
+        return _errkind(e)
+
+
+def impl_processed(case):
+    """implementation result and processed arrays of a `tsopt` case / a single-series `guiopt` case (for the model tie)"""
+    from qats import TimeSeries
+    from qats.app.funcs import calculate_psd
+    norm = bool(case.get("normalize", False))
+    if case["api"] == "tsopt":
+        t, x = materialise(case["sig"])
+        opts = _get_opts(case.get("options"))
+        pr = _processed(t, x, opts)
+        if pr is None:
+            return None
+        kw = dict(nperseg=case.get("nperseg"), noverlap=case.get("noverlap"), nfft=case.get("nfft"))
+        try:
+            r = _tsopt_call(TimeSeries("a", t.copy(), x.copy()), kw, norm, opts, (case.get("spell") or {}).get("args", "kw"))
+        except Exception as e:  # noqa
+            r = _errkind(e)
+        return r, pr[0], pr[1], kw["nperseg"], kw["noverlap"], kw["nfft"], norm
+    s_ = case["series"][0]
+    t, x = materialise(s_["sig"])
+    tw, fa = case.get("twin"), case.get("fargs")
+    rg = ref_gui(t, x, tuple(tw) if tw else None, tuple(fa) if fa else None, case["nperseg"], norm)
+    if rg is None:
+        return None
+    try:
+        f, p = calculate_psd({s_["key"]: TimeSeries(s_.get("name", "a"), t.copy(), x.copy())}, tuple(tw) if tw else None,
+                             tuple(fa) if fa else None, case["nperseg"], norm)[s_["key"]]
+        r = ("ok", np.asarray(f, dtype=float), np.asarray(p, dtype=float))
+    except Exception as e:  # noqa
+        r = _errkind(e)
+    return r, rg[1], rg[2], rg[3], None, None, norm
+
+
+def evaluate_tsopt(case):
+    """TimeSeries.psd with processing options: the spectrum is the definition applied to the series get(**options) returns"""
+    from qats import TimeSeries
+    bad = []
+    t, x = materialise(case["sig"])
+    opts = _get_opts(case.get("options"))
+    norm = bool(case.get("normalize", False))
+    kw = dict(nperseg=case.get("nperseg"), noverlap=case.get("noverlap"), nfft=case.get("nfft"))
+    style = (case.get("spell") or {}).get("args", "kw")
+    pr = _processed(t, x, opts)
+    if pr is None:
+        return bad                                        # options not applicable to this series: not this property's subject
+    tp, xp = pr
+    ref = _ref_outcome(tp, xp, kw["nperseg"], kw["noverlap"], kw["nfft"], norm)
+    ts = None
+    for rep in range(2 if case.get("repeat") else 1):
+        try:
+            if ts is None:
+                ts = TimeSeries("a", t.copy(), x.copy())
+            r = _tsopt_call(ts, kw, norm, opts, style)
+        except Exception as e:  # noqa
+            r = _errkind(e)
+        _cmp_spectrum(bad, "TimeSeries.psd with processing options %s%s" % (sorted(opts), " (second identical request)" if rep else ""),
+                      r, ref, tp, xp, kw["nperseg"], kw["noverlap"], kw["nfft"], norm)
+        if bad:
+            break
+    return bad
+
+
+def ref_gui(t, x, twin, fargs, nperseg, norm):
+    """the GUI path spelled out: window, resampling to the mean step of the whole series, filter, 10 % taper, segment
+    clipped to the length of the processed series; then the definition. None if the processing is not applicable."""
+    if len(t) < 2:
+        return None
+    opts = dict(twin=twin, filterargs=fargs, resample=float(np.mean(np.diff(t))), taperfrac=0.1)
+    pr = _processed(t, x, opts)
+    if pr is None:
+        return None
+    tp, xp = pr
+    nps = min(int(nperseg), tp.size)
+    return _ref_outcome(tp, xp, nps, None, None, norm), tp, xp, nps
+
+
+def evaluate_guiopt(case):
+    """calculate_psd on a container of several series with time window / filter arguments"""
+    from qats import TimeSeries
+    from qats.app.funcs import calculate_psd
+    bad = []
+    sp = case.get("spell") or {}
+    norm = bool(case.get("normalize", False))
+    tw, fa = case.get("twin"), case.get("fargs")
+    tw_ = (list(tw) if sp.get("twin") == "list" else tuple(tw)) if tw else None
+    fa_ = (list(fa) if sp.get("fargs") == "list" else tuple(fa)) if fa else None
+    container, data, objs = {}, [], []
+    try:
+        for s_ in case["series"]:
+            if s_.get("alias") is not None:
+                ts = objs[s_["alias"]]
+                t, x = data[s_["alias"]][1:]
+            else:
+                t, x = materialise(s_["sig"])
+                ts = TimeSeries(s_.get("name", "a"), spell_array(t, sp.get("t", "ndarray")), spell_array(x, sp.get("x", "ndarray")))
+            objs.append(ts)
+            data.append((s_["key"], t, x))
+            container[s_["key"]] = ts
+    except Exception as e:  # noqa
+        return [("the series can be constructed", "TimeSeries", list(_errkind(e)))]
+    refs = [ref_gui(t, x, tw_, fa_, case["nperseg"], norm) for _, t, x in data]
+    if any(r is None for r in refs):
+        return bad
+    nps = spell_n(case["nperseg"], sp.get("n"))
+    out = None
+    for rep in range(2 if case.get("repeat") else 1):
+        try:
+            if sp.get("args") == "kwcall":
+                out = calculate_psd(container=container, twin=tw_, fargs=fa_, nperseg=nps, normalize=norm)
+            else:
+                out = calculate_psd(container, tw_, fa_, nps, norm)
+            err = None
+        except Exception as e:  # noqa
+            out, err = None, _errkind(e)
+        tag = "calculate_psd(twin=%r, fargs=%r)%s" % (tw, fa, " (second identical request)" if rep else "")
+        if err is not None:
+            if all(r[0][0] == "ok" for r in refs):
+                bad.append((tag + ": the call succeeds for series the definition gives a spectrum for", "spectra", list(err)))
+            return bad
+        keys = [k for k, _, _ in data]
+        uniq = list(dict.fromkeys(keys))
+        try:
+            okeys = list(out.keys())
+        except Exception:  # noqa
+            okeys = None
+        if okeys != uniq:
+            bad.append((tag + ": one spectrum per entry of the container, under the container's keys, in its order", uniq, okeys))
+            return bad
+        for (key, t, x), (ref, tp, xp, nps_) in zip(data, refs):
+            try:
+                f, p = out[key]
+                r = ("ok", np.asarray(f, dtype=float), np.asarray(p, dtype=float))
+            except Exception as e:  # noqa
+                r = _errkind(e)
+            _cmp_spectrum(bad, tag + " entry %r" % key, r, ref, tp, xp, nps_, None, None, norm, wrap=lambda v, key=key: dict(key=key, value=v))
+        if bad:
+            break
+    return bad
+
+
+_PLOT_NUM = 9131
+
+
+def evaluate_plot(case):
+    """TimeSeries.plot_psd / TsDB.plot_psd: the plotted curves are the spectra of the selected series"""
+    import matplotlib
+    try:
+        import matplotlib.pyplot as plt
+        if matplotlib.get_backend().lower() != "agg":
+            plt.switch_backend("Agg")
+    except Exception as e:  # noqa
+        return []
+    from qats import TimeSeries, TsDB
+    bad = []
+    opts = _get_opts(case.get("options"))
+    pa = {k: v for k, v in (case.get("psdargs") or {}).items() if v is not None and v is not False}
+    norm = bool(pa.get("normalize", False))
+    series = [(s_["name"],) + tuple(materialise(s_["sig"])) for s_ in case["series"]]
+    sel = case.get("names")
+    chosen = [s_ for s_ in series if sel is None or s_[0] == sel or (isinstance(sel, list) and s_[0] in sel)]
+    refs = {}
+    for name, t, x in chosen:
+        pr = _processed(t, x, opts)
+        if pr is None:
+            return bad
+        ref = _ref_outcome(pr[0], pr[1], pa.get("nperseg"), pa.get("noverlap"), pa.get("nfft"), norm)
+        if ref[0] != "ok":
+            return bad
+        refs[name] = (ref,) + pr
+    plt.close(_PLOT_NUM)
+    try:
+        if case["via"] == "ts":
+            name, t, x = series[0]
+            TimeSeries(name, t.copy(), x.copy()).plot_psd(show=False, num=_PLOT_NUM, **pa, **opts)
+        else:
+            db = TsDB()
+            for name, t, x in series:
+                db.add(TimeSeries(name, t.copy(), x.copy()))
+            db.plot_psd(names=sel, show=False, num=_PLOT_NUM, **pa, **opts)
+        lines = [(str(ln.get_label()), np.asarray(ln.get_xdata(), dtype=float), np.asarray(ln.get_ydata(), dtype=float))
+                 for ln in plt.figure(_PLOT_NUM).gca().lines]
+    except Exception as e:  # noqa
+        plt.close(_PLOT_NUM)
+        return [("%s.plot_psd draws the spectra the definition gives for the selected series" % ("TimeSeries" if case["via"] == "ts" else "TsDB"),
+                 "curves", list(_errkind(e)) + [str(e)[:80]])]
+    plt.close(_PLOT_NUM)
+    if sorted(l[0] for l in lines) != sorted(refs):
+        return [("plot_psd draws one curve per selected series, labelled with its name", sorted(refs), sorted(l[0] for l in lines))]
+    for lab, f, p in lines:
+        ref, tp, xp = refs[lab]
+        _cmp_spectrum(bad, "plot_psd curve %r" % lab, ("ok", f, p), ref, tp, xp, pa.get("nperseg"), pa.get("noverlap"), pa.get("nfft"), norm)
+    return bad
+
+
+def evaluate_sighist(case):
+    """qats.signal.psd called repeatedly with the SAME array object, changed in place by the caller between the calls (other
+    dt / segment settings per call): every spectrum is the definition applied to the values the array holds at the call"""
+    from qats.signal import psd
+    bad = []
+    _, x0 = materialise(case["sig"])
+    arr = spell_array(x0, (case.get("spell") or {}).get("x", "ndarray"))
+    if not isinstance(arr, np.ndarray) or arr.dtype != float:
+        arr = np.array(x0, dtype=float)
+    if not arr.flags.writeable:
+        arr = arr.copy()
+    shadow = np.array(x0, dtype=float)
+    for i, st in enumerate(case["steps"]):
+        op = st["op"]
+        if op == "scale":
+            arr *= st["v"]
+            shadow = shadow * st["v"]
+        elif op == "shift":
+            arr += st["v"]
+            shadow = shadow + st["v"]
+        elif op == "replace":
+            sig2 = dict(st["sig"], n=shadow.size)
+            xn = np.resize(np.array(sig2["x"], dtype=float), shadow.size) if "x" in sig2 else materialise(sig2)[1]
+            arr[:] = xn
+            shadow = np.array(xn, dtype=float)
+        elif op == "poke":
+            j = st["i"] % shadow.size
+            arr[j] += st["v"]
+            shadow[j] += st["v"]
+        elif op == "psd":
+            kw = {k: st[k] for k in ("nperseg", "noverlap", "nfft") if k in st}
+            try:
+                f, p = psd(arr, st["dt"], **kw)
+                r = ("ok", np.asarray(f, dtype=float), np.asarray(p, dtype=float))
+            except Exception as e:  # noqa
+                r = _errkind(e)
+            try:
+                ref = ("ok",) + ref_welch(shadow.copy(), st["dt"], st.get("nperseg"), st.get("noverlap"), st.get("nfft"))
+            except ValueError as e:
+                ref = _errkind(e)
+            wrap = lambda v, i=i: dict(step=i, value=v)  # noqa
+            if ref[0] != r[0] or (ref[0] == "err" and ref[1] != r[1]):
+                bad.append(("signal.psd on an array the caller keeps and changes between calls: the outcome is the one the definition "
+                            "prescribes for the values the array holds at the call", wrap(ref[:2] if ref[0] == "err" else "spectrum"),
+                            wrap(r[:2] if r[0] == "err" else "spectrum")))
+                break
+            if r[0] != "ok":
+                continue
+            rt = _ratio(shadow)
+            if not same(r[1], ref[1], 1e-12 * (float(np.max(np.abs(ref[1]))) if ref[1].size else 0.0) + 1e-300):
+                bad.append(("signal.psd, repeated calls: frequencies equal k/(nfft*dt) of THIS call's dt", wrap(brief(ref[1])), wrap(brief(r[1]))))
+                break
+            if np.isfinite(rt) and not same(r[2], ref[2], (1e-9 + 4e-15 * rt) * scale_of(ref[2], shadow, st["dt"])):
+                bad.append(("signal.psd on an array the caller keeps and changes between calls: the densities are Welch's density of the "
+                            "values the array holds at the call, for this call's dt and segment settings", wrap(brief(ref[2])), wrap(brief(r[2]))))
+                break
+    return bad
+
+
+DISPATCH = {"history": evaluate_history, "tsopt": evaluate_tsopt, "guiopt": evaluate_guiopt, "plot": evaluate_plot,
+            "sighist": evaluate_sighist}
+
+
+def safe_evaluate(case):
+    """an exception while evaluating the clauses (an implementation result of unexpected shape / type, ...) is a failing clause"""
+    try:
+        return evaluate(case)
+    except Exception as e:  # noqa
+        import traceback
+        tb = traceback.extract_tb(e.__traceback__)
+        return [("the clauses of the property can be evaluated on what the implementation returns", "spectrum (two equally long float arrays)",
+                 "%s: %s (at %s)" % (type(e).__name__, str(e)[:120], "; ".join("%s:%d" % (fr.name, fr.lineno) for fr in tb[-2:])))]
 
 
 # ----------------------------------------------------------------------------------------------------------
@@ -611,6 +1139,8 @@ def gen_update(rng, n, dt, t0, allow):
         return dict(op="modify", options=dict(resample=dt * rng.choice([2.0, 0.5, 3.0, 2.5])))
     if op == "fork":
         return dict(op="fork", how=rng.choice(["copy", "copy.copy", "ctor"]))
+    if op == "retime":
+        return dict(op="retime", k=rng.choice([2.0, 0.5, 60.0, 0.001, 3.0]))
     if op == "switch":
         return dict(op="switch", to=rng.randrange(4))
     return dict(op="read", what=rng.choice(["get", "std", "max", "mean"]))
@@ -645,7 +1175,7 @@ def gen_history(rng, long):
         steps = [dict(rng.choice(reqs))]
         for _ in range(rng.randint(2, 4)):
             for _ in range(rng.randint(1, 2)):
-                op = rng.choice(["scale", "scale", "shift", "replace", "replace", "fork", "read"])
+                op = rng.choice(["scale", "scale", "shift", "replace", "replace", "fork", "read", "retime"])
                 steps.append(dict(op="replace", sig=tones_sig(), how=rng.choice(["assign", "slice"])) if op == "replace"
                              else gen_update(rng, n, dt, t0, [op]))
             steps.append(dict(rng.choice(reqs)))
@@ -671,8 +1201,10 @@ def gen_history(rng, long):
         else:
             rq = dict(op="gui", nperseg=rng.choice([8, 16, 64, 512, n, max(1, n // 4)]), normalize=rng.random() < 0.3,
                       twin=[t0 + 0.1 * n * dt, t0 + 0.9 * n * dt] if rng.random() < 0.2 else None)
+            if rng.random() < 0.3:
+                rq["fargs"] = pick_fargs(rng, 0.5 / dt)
         reqs.append(rq)
-    allow = ["scale", "scale", "shift", "replace", "replace", "poke", "modify", "fork", "switch", "read"]
+    allow = ["scale", "scale", "shift", "replace", "replace", "poke", "modify", "fork", "switch", "read", "retime"]
     steps = [dict(rng.choice(reqs))]
     for _ in range(rng.randint(1, 5)):
         for _ in range(rng.choice([0, 1, 1, 1, 2])):
@@ -680,6 +1212,153 @@ def gen_history(rng, long):
         steps.append(dict(rng.choice(reqs)))
     return dict(api="history", sig=sig, steps=steps, checks=[])
 
+
+
+def pick_fargs(rng, fny):
+    """filter arguments as the GUI / TimeSeries.get take them (cut-offs inside the band)"""
+    kind = rng.choice(["lp", "hp", "bp", "bs"])
+    if kind in ("lp", "hp"):
+        return [kind, round(rng.uniform(0.08, 0.7) * fny, 6)]
+    a, b = sorted([rng.uniform(0.05, 0.4), rng.uniform(0.45, 0.85)])
+    return [kind, round(a * fny, 6), round(b * fny, 6)]
+
+
+def pick_options(rng, t, dt):
+    """processing options of TimeSeries.get incl. options that are given but do nothing and windows ending on samples"""
+    n = t.size
+    opts = {}
+    kinds = rng.sample(["twin", "resample", "filterargs", "taperfrac", "window_len"], rng.choice([1, 1, 2, 2, 3]))
+    dte = dt
+    if "twin" in kinds:
+        u = rng.random()
+        if u < 0.2:
+            opts["twin"] = [float(t[0] - dt), float(t[-1] + dt)]                    # whole series: does nothing
+        elif u < 0.35:
+            opts["twin"] = [float(t[0]), float(t[-1])]                              # ends equal to the first / last sample
+        elif u < 0.6:
+            i, j = sorted(rng.sample(range(n), 2))
+            opts["twin"] = [float(t[i]), float(t[j])]                               # thresholds equal to samples
+        else:
+            a, b = sorted([rng.uniform(0.0, 0.4), rng.uniform(0.6, 1.0)])
+            opts["twin"] = [float(t[0] + a * (t[-1] - t[0])), float(t[0] + b * (t[-1] - t[0]))]
+    if "resample" in kinds:
+        dte = dt * rng.choice([2.0, 0.5, 3.0, 2.5, 1.0, 0.75])
+        opts["resample"] = dte
+    if "filterargs" in kinds:
+        opts["filterargs"] = pick_fargs(rng, 0.5 / dte)
+    if "taperfrac" in kinds:
+        opts["taperfrac"] = rng.choice([0.1, 0.0, 0.5, 1.0, 0.25])
+    if "window_len" in kinds:
+        opts["window_len"] = rng.choice([1, 3, 5])
+    if ("twin" in opts or "filterargs" in opts) and rng.random() < 0.3:
+        opts["as_list"] = True
+    return opts
+
+
+def gen_tsopt(rng):
+    n = rng.choice([rng.randint(24, 80), rng.randint(80, 300), rng.choice([400, 600, 1024])])
+    dt = pick_dt(rng)
+    t0 = rng.choice([0.0, 0.0, 12.5, -3.0, 1000.0])
+    sig, kind = history_signal(rng, n, dt, t0)
+    if "x" not in sig:
+        jit = rng.choice([0.0, 0.0, 0.0, 0.002, 0.05])
+        if jit:
+            sig["jitter"] = dict(amp=jit, seed=rng.randrange(10 ** 9))
+    t, _ = materialise(sig)
+    opts = pick_options(rng, t, dt)
+    nest = n
+    if opts.get("twin"):
+        nest = int(np.sum((t >= opts["twin"][0]) & (t <= opts["twin"][1])))
+    if opts.get("resample"):
+        nest = max(2, int(nest * dt / opts["resample"]))
+    nps, nov, nf = pick_args(rng, max(2, nest), max(2, nest) // 4)
+    if rng.random() < 0.35:
+        nps = None                                          # the default: a quarter of the PROCESSED series
+    case = dict(api="tsopt", sig=sig, options=opts, nperseg=nps, noverlap=nov, nfft=nf, normalize=rng.random() < 0.3,
+                repeat=rng.random() < 0.3, spell=dict(args=rng.choice(["kw", "kw", "pos", "omit"])))
+    return case, kind
+
+
+def gen_guiopt(rng):
+    k = rng.choice([1, 1, 2, 2, 3])
+    t0 = rng.choice([0.0, 0.0, 12.5, -3.0, 1000.0])
+    dur = rng.choice([20.0, 50.0, 100.0])
+    series, keys = [], ["a", "Tension [kN]", "dir/f.ts\\b", "b", "psd"]
+    rng.shuffle(keys)
+    n0 = None
+    for j in range(k):
+        dt = rng.choice([0.1, 0.25, 0.5, 1.0, 0.37, 0.05])
+        n = max(8, int(dur / dt))
+        sig, kind = history_signal(rng, n, dt, t0)
+        if "x" not in sig:
+            jit = rng.choice([0.0, 0.0, 0.002, 0.05, 0.3])
+            if jit:
+                sig["jitter"] = dict(amp=jit, seed=rng.randrange(10 ** 9))
+        series.append(dict(key=keys[j], name=rng.choice([keys[j], keys[j], "name-differs-from-key"]), sig=sig))
+        n0 = n0 or n
+    if k > 1 and rng.random() < 0.15:
+        series.append(dict(key="again", alias=0))           # the same object under a second key
+    fny = min(0.5 / s_["sig"]["dt"] for s_ in series if "sig" in s_)
+    u = rng.random()
+    twin = None if u < 0.4 else ([t0 - 1.0, t0 + 2 * dur] if u < 0.55 else [t0 + rng.uniform(0.0, 0.3) * dur, t0 + rng.uniform(0.6, 1.0) * dur])
+    fargs = pick_fargs(rng, fny) if rng.random() < 0.55 else None
+    nps = rng.choice([1, 2, 8, 16, 64, 512, 100000, n0, n0 - 1, n0 + 1, max(1, n0 // 4)])
+    spell = dict(args=rng.choice(["pos", "kwcall"]), twin=rng.choice(["tuple", "list"]), fargs=rng.choice(["tuple", "tuple", "list"]),
+                 n=rng.choice(["int", "np.int64"]), x=rng.choice(["ndarray", "view", "readonly"]), t=rng.choice(["ndarray", "view", "readonly"]))
+    return dict(api="guiopt", series=series, twin=twin, fargs=fargs, nperseg=nps, normalize=rng.random() < 0.3,
+                repeat=rng.random() < 0.4, spell=spell)
+
+
+def gen_plot(rng):
+    via = rng.choice(["ts", "db", "db"])
+    k = 1 if via == "ts" else rng.randint(1, 3)
+    names = ["a", "Tension [kN]", "b", "heave"]
+    rng.shuffle(names)
+    t0 = rng.choice([0.0, 10.0])
+    series = []
+    for j in range(k):
+        n, dt = rng.randint(40, 300), rng.choice([0.1, 0.25, 0.5, 1.0, 0.37])
+        series.append(dict(name=names[j], sig=history_signal(rng, n, dt, t0)[0]))
+    opts = {}
+    u = rng.random()
+    n, dt = series[0]["sig"].get("n", len(series[0]["sig"].get("x", []))), series[0]["sig"]["dt"]
+    if u < 0.3 and k == 1:
+        opts["twin"] = [t0 + 0.1 * n * dt, t0 + 0.8 * n * dt]
+    elif u < 0.6:
+        opts["resample"] = max(s_["sig"]["dt"] for s_ in series) * rng.choice([1.0, 2.0])
+    sel = None if via == "ts" or rng.random() < 0.5 else rng.choice([series[0]["name"], [s_["name"] for s_ in series][::-1][:rng.randint(1, k)]])
+    pa = dict(nperseg=rng.choice([None, 16, 32]), noverlap=rng.choice([None, 0, 4]), nfft=rng.choice([None, 64]),
+              normalize=rng.random() < 0.4)
+    return dict(api="plot", via=via, series=series, names=sel, psdargs=pa, options=opts)
+
+
+def gen_sighist(rng):
+    n = rng.choice([rng.randint(16, 64), rng.randint(64, 256), 300])
+    sig, kind = history_signal(rng, n, 1.0, 0.0)
+    npss = [rng.choice([None, 8, 16, n // 2, n]) for _ in range(2)]
+
+    def req():
+        nps = rng.choice(npss)
+        st = dict(op="psd", dt=rng.choice([pick_dt(rng), 1.0, 0.5, 2.0]))
+        if nps is not None or rng.random() < 0.5:
+            st["nperseg"] = nps
+        if rng.random() < 0.3:
+            st["noverlap"] = rng.choice([0, None, 3])
+        if rng.random() < 0.2:
+            st["nfft"] = rng.choice([None, 512])
+        return st
+    steps = [req()]
+    for _ in range(rng.randint(2, 5)):
+        if rng.random() < 0.75:
+            op = rng.choice(["scale", "shift", "replace", "poke"])
+            if op == "replace":
+                steps.append(dict(op="replace", sig=history_signal(rng, n, 1.0, 0.0)[0]))
+            else:
+                st = gen_update(rng, n, 1.0, 0.0, [op])
+                st.pop("how", None)
+                steps.append(st)
+        steps.append(req())
+    return dict(api="sighist", sig=sig, steps=steps, spell=dict(x=rng.choice(["ndarray", "view", "rev"])))
 
 
 # ----------------------------------------------------------------------------------------------------------
@@ -727,8 +1406,11 @@ def run(chk):
         sig, kind = short_signal(rng, n, dt)
         nps, nov, nf = pick_args(rng, n, 256)
         case = dict(api="signal", sig=sig, nperseg=nps, noverlap=nov, nfft=nf,
-                    checks=["definition", "grid", "nonneg", "scale", "shift", "timeunit"], a=rng.choice([-2.5, 0.3, 7.0]),
-                    c=rng.choice([1000.0, -3.25, 1.0]), k=rng.choice([60.0, 0.001, 3.0]))
+                    checks=["definition", "grid", "nonneg", "scale", "shift", "timeunit"], a=rng.choice(AMPS),
+                    c=rng.choice([1000.0, -3.25, 1.0]), k=rng.choice([60.0, 0.001, 3.0, 2.0 ** 30, 2.0 ** -30]))
+        sp = pick_spell(rng, "signal")
+        if sp:
+            case["spell"] = sp
         t, x = materialise(sig)
         add(case, "psd.welch %s %s %s %s %s" % (fbits(dt), arg(nps), arg(nov), arg(nf), floats(x)),
             kind != "const" and segs(n, nps, nov, 256) >= 2, "signal:%s:%s" % (kind, "segs>=2" if segs(n, nps, nov, 256) >= 2 else "segs<2"))
@@ -754,7 +1436,12 @@ def run(chk):
         if nps == 0 and rng.random() < 0.5:
             nps = None
         case = dict(api="ts", sig=sig, nperseg=nps, noverlap=nov, nfft=nf, normalize=rng.random() < 0.35, checks=checks,
-                    a=rng.choice([-2.5, 0.3, 7.0]), c=rng.choice([1000.0, -3.25, 1.0]))
+                    a=rng.choice(AMPS), c=rng.choice([1000.0, -3.25, 1.0]), k=rng.choice([60.0, 0.001, 1024.0, 2.0 ** -20]))
+        if not jit:
+            checks.append("timeunit")
+        sp = pick_spell(rng, "ts")
+        if sp:
+            case["spell"] = sp
         t, x = materialise(sig)
         d = np.diff(t)
         spread, thr = abs(d.min() - d.max()), 1e-6 + 1e-2 * abs(d.max())
@@ -773,10 +1460,13 @@ def run(chk):
         jit = 0.0 if "x" in sig else rng.choice([0.0, 0.0, 0.002, 0.05, 0.3])
         if jit:
             sig["jitter"] = dict(amp=jit, seed=rng.randrange(10 ** 9))
-        nps = rng.choice([1, 2, 8, 16, 32, 64, 512, n, max(1, n // 2), max(1, n // 4)])
+        nps = rng.choice([1, 2, 8, 16, 32, 64, 512, n, n + 1, max(1, n - 1), max(1, n // 2), max(1, n // 4)])
         case = dict(api="gui", sig=sig, nperseg=nps, normalize=rng.random() < 0.3,
-                    checks=["ok", "grid", "nonneg", "scale", "shift", "normalised", "clip"], a=rng.choice([-2.5, 0.3, 7.0]),
-                    c=rng.choice([1000.0, -3.25, 1.0]))
+                    checks=["ok", "grid", "nonneg", "scale", "shift", "normalised", "clip"] + ([] if jit else ["timeunit"]),
+                    a=rng.choice(AMPS), c=rng.choice([1000.0, -3.25, 1.0]), k=rng.choice([60.0, 64.0, 2.0 ** -10, 0.001]))
+        sp = pick_spell(rng, "gui")
+        if sp:
+            case["spell"] = sp
         t, x = materialise(sig)
         add(case, "psd.gui %d %s %s | %s" % (nps, "1" if case["normalize"] else "0", floats(t), floats(x)),
             kind != "const" and segs(n, nps, None, 1) >= 2, "gui:%s:jitter=%g" % (kind, jit))
@@ -792,9 +1482,55 @@ def run(chk):
                 meta.append(dict(case, twin=tw, checks=[]))
                 chk.dist("gui:twin")
 
+    # ---- processing options of TimeSeries.psd: the definition applied to the processed series ------------------------------------------------
+    def add_processed(case):
+        """model tie: Lean's `psdTs` on the processed arrays against the implementation called with the options"""
+        got = impl_processed(case)
+        if got is None or got[1].size > 200 or (got[5] or 0) > 400:
+            return
+        r, tp, xp, nps_, nov_, nf_, norm_ = got
+        lines.append("psd.ts %s %s %s %s %s | %s" % (arg(nps_), arg(nov_), arg(nf_), "1" if norm_ else "0", floats(tp), floats(xp)))
+        meta.append(dict(api="processed", case=case, got=got))
+
+    for _ in range(150 if q else 3000):
+        case, kind = gen_tsopt(rng)
+        oracle_cases.append(case)
+        chk.nontriv(repr(case))
+        chk.dist("tsopt:" + "+".join(sorted(k for k in case["options"] if k != "as_list")))
+        add_processed(case)
+
+    # ---- GUI path: containers of several series, time window and filter arguments, against the spelled-out chain ---------------------------
+    for _ in range(80 if q else 1500):
+        case = gen_guiopt(rng)
+        oracle_cases.append(case)
+        chk.nontriv(repr(case))
+        chk.dist("guiopt:series=%d:%s%s" % (len(case["series"]), "twin" if case["twin"] else "-", "+fargs" if case["fargs"] else ""))
+        if len(case["series"]) == 1:
+            add_processed(case)
+
     # ---- model vs implementation --------------------------------------------------------------------------------------------------
     outs = drv.run(lines, shards=min(core.NCPU, 8))
     for case, o in zip(meta, outs):
+        if case["api"] == "processed":
+            # TimeSeries.psd(**options) / calculate_psd(twin, fargs) against the model applied to the processed arrays
+            im, tp, xp, nps_, nov_, nf_, norm_ = case["got"]
+            stream = "psd.ts/processed" if case["case"]["api"] == "tsopt" else "psd.gui/processed"
+            chk.count(stream)
+            m = parse(o)
+            inp = case["case"]
+            if im[0] != m[0] or (im[0] == "err" and im[1] != m[1]):
+                chk.disagree(stream, inp, list(m[:2]) if m[0] == "err" else "spectrum", list(im[:2]) if im[0] == "err" else "spectrum")
+                continue
+            if im[0] == "err":
+                continue
+            dtp = float(np.mean(np.diff(tp)))
+            rt = _ratio(xp)
+            noise = not np.isfinite(rt) or (norm_ and is_noise(_ref_outcome(tp, xp, nps_, nov_, nf_, False), xp, dtp))
+            sc = 1.0 if norm_ else max(scale_of(im[2], xp, dtp), scale_of(m[2], xp, dtp))
+            fsc = 1e-12 * (float(np.max(np.abs(im[1]))) if im[1].size else 0.0) + 1e-300
+            if not same(m[1], im[1], fsc) or (not noise and not same(m[2], im[2], (1e-9 + 4e-15 * rt) * sc)):
+                chk.disagree(stream, inp, dict(f=brief(m[1]), p=brief(m[2])), dict(f=brief(im[1]), p=brief(im[2])))
+            continue
         t, x = materialise(case["sig"])
         if case["api"] == "guisig":
             chk.count("psd.guisig")
@@ -815,6 +1551,8 @@ def run(chk):
         chk.count(stream)
         im, m = call(case, t, x), parse(o)
         inp = {k: v for k, v in case.items() if k not in ("checks", "a", "c", "k")}
+        if case.get("spell"):
+            chk.dist("spelled:%s" % case["api"])
         if im[0] != m[0] or (im[0] == "err" and im[1] != m[1]):
             chk.disagree(stream, inp, list(m[:2]) if m[0] == "err" else "spectrum", list(im[:2]) if im[0] == "err" else "spectrum")
             continue
@@ -858,6 +1596,11 @@ def run(chk):
                     k=rng.choice([60.0, 0.001]))
         if api != "signal":
             case["normalize"] = False
+            case["checks"].append("timeunit")
+            case["k"] = rng.choice([60.0, 0.001, 1024.0])
+        sp = pick_spell(rng, api, plain=0.6)
+        if sp:
+            case["spell"] = dict(sp, x=sp["x"] if sp["x"] in ("ndarray", "list", "tuple", "view", "rev", "readonly") else "ndarray")
         oracle_cases.append(case)
         chk.nontriv(repr(case))
         chk.dist("long:%s:dt=%g" % (api, dt))
@@ -876,8 +1619,24 @@ def run(chk):
             continue
         case = dict(api="ts", sig=sig, nperseg=rng.choice([None, 8]), normalize=False,
                     checks=["definition", "guard_reject"] if big else ["definition", "guard_accept", "default", "ok"])
+        sp = pick_spell(rng, "ts")
+        if sp:
+            case["spell"] = sp
         oracle_cases.append(case)
         chk.dist("guard:%s" % ("reject" if big else "accept"))
+    # single deviating steps on an otherwise uniform grid (a dropped sample, one late and one early sample)
+    for _ in range(20 if q else 300):
+        n, dt = rng.randint(8, 120), rng.choice([0.1, 0.25, 0.5, 1.0, 2.0, 3.7, 0.05])
+        kind = rng.choice(["gap", "pair-reject", "pair-accept", "one-reject", "one-accept"])
+        i, j = rng.sample(range(n - 1), 2)
+        outl = {"gap": [[i, 2.0]], "pair-reject": [[i, 1.006], [j, 0.994]], "pair-accept": [[i, 1.004], [j, 0.996]],
+                "one-reject": [[i, rng.choice([1.015, 0.985, 0.5, 1.1])]], "one-accept": [[i, rng.choice([1.005, 0.995, 1.0])]]}[kind]
+        sig = dict(n=n, dt=dt, t0=rng.choice([0.0, 50.0]), offset=0.0, noise_sd=1.0, noise_seed=rng.randrange(10 ** 9), outliers=outl)
+        rej = "reject" in kind or kind == "gap"
+        case = dict(api="ts", sig=sig, nperseg=rng.choice([None, 8]), normalize=False,
+                    checks=["definition", "guard_reject"] if rej else ["definition", "guard_accept", "ok"])
+        oracle_cases.append(case)
+        chk.dist("guard:%s" % kind)
 
     # ---- processing options: the spectrum of the *processed* series (its own sampling interval) ---------------------------------------------
     for _ in range(12 if q else 150):
@@ -916,10 +1675,23 @@ def run(chk):
             chk.nontriv(repr(case))
         chk.dist("history:%s:%s" % ("long" if case["checks"] else "short", "+".join(sorted(set(ops) - {"psd", "gui"})) or "repeat"))
 
+    # ---- plotting wrappers (TimeSeries.plot_psd, TsDB.plot_psd): the curves drawn -------------------------------------------------------------
+    for _ in range(12 if q else 150):
+        case = gen_plot(rng)
+        oracle_cases.append(case)
+        chk.dist("plot:" + case["via"])
+
+    # ---- signal.psd: histories on one array object the caller keeps --------------------------------------------------------------------------------
+    for _ in range(60 if q else 1200):
+        case = gen_sighist(rng)
+        oracle_cases.append(case)
+        chk.nontriv(repr(case))
+        chk.dist("sighist")
+
     # ---- evaluate the clauses -----------------------------------------------------------------------------------------------------------------
     for case in oracle_cases:
         chk.count("oracles:" + case["api"])
-        for clause, exp, obs in evaluate(case):
+        for clause, exp, obs in safe_evaluate(case):
             chk.fail(clause, case, exp, obs)
     chk.sample(dict(note="rational model example", x=[1, 0, -1, 0, 1, 0, -1, 0], fs=2, nperseg=4, f=["0", "1/2", "1"], p=["1/3", "2/3", "1/3"]))
 
@@ -940,12 +1712,12 @@ def replay(rp):
         print("last frequency: implementation %g, processed series %g" % (f[-1], fr[-1]))
         print("replay: %d failing clause(s)" % (0 if ok else 1))
         return 0 if ok else 1
-    bad = evaluate(case)
+    bad = safe_evaluate(case)
     for clause, exp, obs in bad:
         print("FAILS:", clause)
         print("   expected:", exp)
         print("   observed:", obs)
-    if case.get("api") == "history":
+    if case.get("api") in ("history", "sighist"):
         print("history:", " -> ".join(st["op"] + ("(%r)" % st["v"] if "v" in st else "") for st in case["steps"]))
     if case.get("api") in ("signal", "ts", "gui") and not case.get("twin"):
         # also show the model's answer
